@@ -10,6 +10,10 @@ TRUST = ("Trusted: SMT solvers (z3 5.1.0 primary; z3 4.8.12 / cvc5 fall back; th
          "the ground models of strings.Split/Join, strconv.ParseInt/Atoi/FormatInt and math.Pow/Mod/Abs/Floor listed in each evidence file. ")
 
 CLAIMS = {
+    "C01": dict(
+        text="The vertical index is proved to be floor(alt*2^v/2^25) under IEEE semantics for every zoom (both float operations are power-of-two scalings with explicit no-underflow obligations); the horizontal kernel is proved equal to the property's x and y formulas over ideal reals (x with the lon=180 fold, y through the trusted identity log(tan p+1/cos p)=asinh(tan p)), with 0<=x,y<=2^h; the list functions are proved to reject bad zooms and nil points and otherwise to return, in order and with the same length, the horizontal tile joined with the vertical tile of each point (spatial-ID form: same components in z/f/x/y order).",
+        note=TRUST + "Rounding of the x and y computations is NOT decided: three witness findings (KNOWN-FINDING lines) record that x can be one too large within one rounding step below a tile edge, can equal 2^h just below lon=180, and that a negative subnormal altitude gets index 0. The Mercator bound |asinh(tan lat)| <= pi for |lat| <= 85.0511287798 is assumed.",
+        tech="deductive verification: WP VCs over go/ssa, real-arithmetic float model (exact power-of-two scalings, ideal reals for transcendental parts), pure-function abstraction, SMT", ref="4 C01"),
     "C03": dict(
         text="Contracts on the real per-axis kernels (HorizontalZoomMinMax, HorizontalZoom, VerticalZoom) prove, for every (input zoom, output zoom) pair in 0..35^2 and every index, the exact enumeration: zoom-in yields the 2^d (4^d) descendants in row-major order, zoom-out the floor ancestor (negative vertical indices included). Loop invariants are quantified, so list lengths are unbounded.",
         note=TRUST + "The cross-product/Unique level of ChangeExtendedSpatialIdsZoom is covered by the contracts of Unique and of the kernels; its own set-level postcondition is listed in DESIGN.md as not yet discharged.",
